@@ -174,14 +174,15 @@ def edit_close(a, b):
 
 
 class Builder:
-    def __init__(self):
+    def __init__(self, data=None):
         import xdeps
         self.m = xdeps.Manager()
         self.roots = {}
+        self.data = data or {}
 
     def root(self, label):
         if label not in self.roots:
-            self.roots[label] = self.m.ref({}, label)
+            self.roots[label] = self.m.ref(self.data.get(label, {}), label)
         return self.roots[label]
 
     def ref(self, p):
@@ -191,8 +192,8 @@ class Builder:
         return r
 
 
-def check_pool(ctx, pool):
-    b = Builder()
+def check_pool(ctx, pool, b=None):
+    b = b or Builder()
     first = [b.ref(p) for p in pool]
     second = [b.ref(p) for p in pool]       # built independently
     texts = [ptext(p) for p in pool]
@@ -283,6 +284,65 @@ def run_pools(ctx):
             f.case = {"kind": "pool", "paths": [enc_path(p) for p in (list(pair) if pair else pool)]}
         return f
     drive(ctx, pools(), body, n, salt=1, label="C06 pools")
+
+
+def run_live(ctx):
+    """paths over LIVE containers: the parents of the steps exist and hold lists, tuples, strings, dicts and objects
+    of known length - a reference is a path, not the element it currently designates: d['lst'][-1] and d['lst'][2]
+    are different references although they read the same element today, and the same path is the same reference
+    before and after the container changes"""
+    if ctx.shard != 0:
+        return
+
+    class O:
+        pass
+    o = O()
+    o.seq = [1.0, 2.0, 3.0]
+    o.k = 5
+    data = {"d": {"lst": [0, 1, 2], "n": {"lst": [5, 6, 7, 8], "t": (1, 2), 0: "zero", -1: "minus one"}, "s": "abc",
+                  "o": o, 2: [9, 8], "e": []}}
+    ints = [-4, -3, -2, -1, 0, 1, 2, 3]
+    pool = []
+    for k in ints:
+        pool.append(("d", (("i", "lst"), ("i", k))))
+        pool.append(("d", (("i", "n"), ("i", "lst"), ("i", k))))
+        pool.append(("d", (("i", "n"), ("i", "t"), ("i", k))))
+        pool.append(("d", (("i", "s"), ("i", k))))
+        pool.append(("d", (("i", "o"), ("a", "seq"), ("i", k))))
+        pool.append(("d", (("i", "n"), ("i", k))))
+        pool.append(("d", (("i", 2), ("i", k))))
+        pool.append(("d", (("i", "e"), ("i", k))))
+    pool += [("d", (("i", "lst"),)), ("d", (("i", "o"), ("a", "k"))), ("d", (("i", "o"), ("i", "k")))]
+    for part in range(0, len(pool), 24):
+        b = Builder(data)
+        f, pair = check_pool(ctx, pool[part:part + 24] + pool[:6], b)
+        if f is not None:
+            f.sig = f.sig + ":live-container"
+            ctx.fail(f, {"kind": "pool", "paths": [enc_path(p) for p in (list(pair) if pair else pool[part:part + 24])], "live": True})
+            return
+    # the same path before and after the containers change length
+    b = Builder(data)
+    before = [b.ref(p) for p in pool]
+    hb = [hash(r) for r in before]
+    data["d"]["lst"].append(3)
+    data["d"]["n"]["lst"].pop()
+    o.seq.insert(0, 0.0)
+    data["d"]["e"].append(1)
+    after = [b.ref(p) for p in pool]
+    try:
+        for p, r0, h0, r1 in zip(pool, before, hb, after):
+            ctx.stats.case({"path": ptext(p), "rebuilt": "after the container changed length"}, True, ["live-container:rebuilt-after-change"])
+            if not (r0 == r1) or r0 != r1 or h0 != hash(r1) or {r0: 1}.get(r1) != 1 or str(r0) != str(r1):
+                ctx.fail(Failure("C06:same-path-not-identified:after-container-changed",
+                                 {"path": ptext(p), "built_before": str(r0), "built_after": str(r1), "eq": repr(r0 == r1),
+                                  "hash_equal": h0 == hash(r1)}),
+                         {"kind": "live", "path": enc_path(p)})
+                return
+    finally:
+        data["d"]["lst"].pop()
+        data["d"]["n"]["lst"].append(8)
+        o.seq.pop(0)
+        data["d"]["e"].pop()
 
 
 def run_family(ctx):
@@ -385,12 +445,17 @@ def run_exprs(ctx):
 
 
 def run(ctx):
+    run_live(ctx)
     run_family(ctx)
     run_pools(ctx)
     run_exprs(ctx)
 
 
 def replay(ctx, case):
+    if case["kind"] == "live" or case.get("live"):
+        ctx.shard = 0
+        run_live(ctx)
+        return None
     if case["kind"] == "pool":
         f, _ = check_pool(ctx, [dec_path(p) for p in case["paths"]])
         return f
